@@ -569,4 +569,437 @@ theorem inv_claim_new {c : Cfg} {s : DSt} (h : DInv c s) (T : Task) (hT : T ∈ 
       · exact Or.inr h1
     · exact Or.inl ⟨_, mem_replace_new, rfl, Or.inl (by simp)⟩
 
+def flushed (c : Cfg) (T : Task) : Task :=
+  { T with buf := [], pend := (none, T.buf) :: (List.range (c.topo.nl T.owner)).map (fun k => (some k, T.buf)) }
+
+theorem inv_flush {c : Cfg} {s : DSt} (h : DInv c s) (T : Task) (hT : T ∈ s.tasks) (hp : T.pend = []) :
+    DInv c { s with tasks := replace s.tasks T (flushed c T) } := by
+  have hmem : ∀ e, e ∈ (flushed c T).pend → e.2 = T.buf := by
+    intro e he; simp only [flushed, List.mem_cons, List.mem_map, List.mem_range] at he
+    rcases he with rfl | ⟨k, _, rfl⟩ <;> rfl
+  refine { pinv := h.pinv, nc := h.nc, wfOwner := ?_, wfSrc := ?_, wfPend := ?_, tok := ?_, stdRun := ?_,
+           todoRun := h.todoRun, todoSub := h.todoSub, sOut := h.sOut, sRes := ?_, sBuf := ?_, sPend := ?_, sRaw := ?_,
+           sExt := h.sExt, c1 := ?_, c2 := ?_, c3 := ?_, c4 := ?_ }
+  · exact forall_replace h.wfOwner (h.wfOwner T hT)
+  · exact forall_replace h.wfSrc (h.wfSrc T hT)
+  · refine forall_replace h.wfPend ?_
+    intro k vs hk
+    simp only [flushed, List.mem_cons, List.mem_map, List.mem_range] at hk
+    rcases hk with hk | ⟨k', hk', he⟩
+    · simp at hk
+    · injection he with e1 _; injection e1 with e1; subst e1; exact hk'
+  · exact tok_replace h.tok hT _ rfl
+  · exact forall_replace h.stdRun (h.stdRun T hT)
+  · exact forall_replace h.sRes (h.sRes T hT)
+  · refine forall_replace h.sBuf ?_
+    intro x hx; simp [flushed] at hx
+  · refine forall_replace h.sPend ?_
+    intro e he x hx; rw [hmem e he] at hx; exact h.sBuf T hT x hx
+  · exact forall_replace h.sRaw (h.sRaw T hT)
+  · intro x hx b hb y hy
+    rcases h.c1 x hx b hb y hy with h1 | h1 | h1
+    · exact Or.inl h1
+    · exact Or.inr (Or.inl (exists_replace_mono h1 (fun q => q)))
+    · exact Or.inr (Or.inr h1)
+  · intro j' k' hj hk v' hv'
+    rcases h.c2 j' k' hj hk v' hv' with h1 | h1 | h1
+    · left
+      refine exists_replace_mono h1 (fun q => ⟨q.1, ?_⟩)
+      rcases q.2 with hb | ⟨vs, hvs, _⟩
+      · right; refine ⟨T.buf, ?_, hb⟩
+        simp only [flushed, List.mem_cons, List.mem_map, List.mem_range]
+        right; exact ⟨k', by rw [q.1]; exact hk, rfl⟩
+      · rw [hp] at hvs; simp at hvs
+    · exact Or.inr (Or.inl (exists_replace_mono h1 (fun q => q)))
+    · exact Or.inr (Or.inr h1)
+  · intro j' k' x hx v' hv' y hy
+    rcases h.c3 j' k' x hx v' hv' y hy with h1 | h1
+    · exact Or.inl (exists_replace_mono h1 (fun q => q))
+    · exact Or.inr h1
+  · intro j' v' hv'
+    rcases h.c4 j' v' hv' with h1 | h1
+    · left
+      refine exists_replace_mono h1 (fun q => ⟨q.1, ?_⟩)
+      rcases q.2 with hb | ⟨vs, hvs, _⟩
+      · right; exact ⟨T.buf, by simp [flushed], hb⟩
+      · rw [hp] at hvs; simp at hvs
+    · exact Or.inr h1
+
+theorem upd_app_mono (e : Nat → List Val) (o : Nat) (vs : List Val) (i : Nat) (x : Val) (h : x ∈ e i) :
+    x ∈ upd e o (e o ++ vs) i := by
+  by_cases q : i = o
+  · subst q; simp [h]
+  · rw [upd_other _ _ _ _ q]; exact h
+
+theorem inv_sendExt {c : Cfg} {s : DSt} (h : DInv c s) (T : Task) (hT : T ∈ s.tasks) (vs : List Val)
+    (rest : List (Option Nat × List Val)) (hp : T.pend = (none, vs) :: rest) :
+    DInv c { s with extOut := upd s.extOut T.owner (s.extOut T.owner ++ vs),
+                    tasks := replace s.tasks T { T with pend := rest } } := by
+  have hsub : ∀ e, e ∈ rest → e ∈ T.pend := fun e he => by rw [hp]; exact List.mem_cons_of_mem _ he
+  refine { pinv := h.pinv, nc := h.nc, wfOwner := ?_, wfSrc := ?_, wfPend := ?_, tok := ?_, stdRun := ?_,
+           todoRun := h.todoRun, todoSub := h.todoSub, sOut := h.sOut, sRes := ?_, sBuf := ?_, sPend := ?_, sRaw := ?_,
+           sExt := ?_, c1 := ?_, c2 := ?_, c3 := ?_, c4 := ?_ }
+  · exact forall_replace h.wfOwner (h.wfOwner T hT)
+  · exact forall_replace h.wfSrc (h.wfSrc T hT)
+  · exact forall_replace h.wfPend (fun k ws hk => h.wfPend T hT k ws (hsub _ hk))
+  · exact tok_replace h.tok hT _ rfl
+  · exact forall_replace h.stdRun (h.stdRun T hT)
+  · exact forall_replace h.sRes (h.sRes T hT)
+  · exact forall_replace h.sBuf (h.sBuf T hT)
+  · exact forall_replace h.sPend (fun e he x hx => h.sPend T hT e (hsub e he) x hx)
+  · exact forall_replace h.sRaw (h.sRaw T hT)
+  · intro i x hx; dsimp only at hx
+    by_cases q : i = T.owner
+    · subst q; simp only [upd_same, List.mem_append] at hx
+      rcases hx with hx | hx
+      · exact h.sExt _ x hx
+      · exact h.sPend T hT (none, vs) (by rw [hp]; simp) x hx
+    · rw [upd_other _ _ _ _ q] at hx; exact h.sExt i x hx
+  · intro x hx b hb y hy
+    rcases h.c1 x hx b hb y hy with h1 | h1 | h1
+    · exact Or.inl h1
+    · exact Or.inr (Or.inl (exists_replace_mono h1 (fun q => q)))
+    · exact Or.inr (Or.inr h1)
+  · intro j' k' hj hk v' hv'
+    rcases h.c2 j' k' hj hk v' hv' with h1 | h1 | h1
+    · left
+      refine exists_replace_mono h1 (fun q => ⟨q.1, ?_⟩)
+      rcases q.2 with hb | ⟨ws, hws, hv⟩
+      · exact Or.inl hb
+      · right; rw [hp] at hws; simp only [List.mem_cons] at hws
+        rcases hws with hws | hws
+        · injection hws with e1 _; simp at e1
+        · exact ⟨ws, hws, hv⟩
+    · exact Or.inr (Or.inl (exists_replace_mono h1 (fun q => q)))
+    · exact Or.inr (Or.inr h1)
+  · intro j' k' x hx v' hv' y hy
+    rcases h.c3 j' k' x hx v' hv' y hy with h1 | h1
+    · exact Or.inl (exists_replace_mono h1 (fun q => q))
+    · exact Or.inr h1
+  · intro j' v' hv'
+    rcases h.c4 j' v' hv' with h1 | h1
+    · rcases exists_replace (T := T) (T' := { T with pend := rest }) h1 with h2 | ⟨ho, hq⟩
+      · exact Or.inl h2
+      · rcases hq with hb | ⟨ws, hws, hv⟩
+        · exact Or.inl ⟨_, mem_replace_new, ho, Or.inl hb⟩
+        · rw [hp] at hws; simp only [List.mem_cons] at hws
+          rcases hws with hws | hws
+          · injection hws with _ e2; subst e2
+            right; dsimp only; rw [← ho]; simp [hv]
+          · exact Or.inl ⟨_, mem_replace_new, ho, Or.inr ⟨ws, hws, hv⟩⟩
+    · exact Or.inr (upd_app_mono _ _ _ _ _ h1)
+
+theorem inv_sendCyc {c : Cfg} {s : DSt} (h : DInv c s) (hc : c.closedTopo) (T : Task) (hT : T ∈ s.tasks) (k : Nat) (vs : List Val)
+    (rest : List (Option Nat × List Val)) (hp : T.pend = (some k, vs) :: rest) (p' : St) (d : Nat)
+    (hstep : step c.topo s.p (.msgInc T.owner k) = some p') (hd : (c.topo.outs T.owner)[k]? = some d) :
+    DInv c { s with p := p',
+                    tasks := ⟨d, some (T.owner, k), vs, [], [], []⟩ :: replace s.tasks T { T with pend := rest } } := by
+  have hsub : ∀ e, e ∈ rest → e ∈ T.pend := fun e he => by rw [hp]; exact List.mem_cons_of_mem _ he
+  obtain ⟨hp', ho, _⟩ := step_msgInc_eq hstep
+  have hpc : p'.pc = s.p.pc := by rw [hp']
+  have hmsgs : p'.msgs = ⟨T.owner, k⟩ :: s.p.msgs := by rw [hp']
+  have hdn : d < c.topo.n := hc T.owner ho d (List.mem_of_getElem? hd)
+  refine { pinv := step_inv h.pinv _ hstep, nc := h.nc, wfOwner := ?_, wfSrc := ?_, wfPend := ?_, tok := ?_, stdRun := ?_,
+           todoRun := ?_, todoSub := h.todoSub, sOut := h.sOut, sRes := ?_, sBuf := ?_, sPend := ?_, sRaw := ?_,
+           sExt := h.sExt, c1 := ?_, c2 := ?_, c3 := ?_, c4 := ?_ }
+  · intro X hX; simp only [List.mem_cons] at hX
+    rcases hX with rfl | hX
+    · exact hdn
+    · exact forall_replace (T' := { T with pend := rest }) h.wfOwner (h.wfOwner T hT) X hX
+  · intro X hX j' k' hs; simp only [List.mem_cons] at hX
+    rcases hX with rfl | hX
+    · simp only [Option.some.injEq, Prod.mk.injEq] at hs
+      obtain ⟨rfl, rfl⟩ := hs; exact ⟨ho, hd⟩
+    · exact forall_replace (T' := { T with pend := rest }) h.wfSrc (h.wfSrc T hT) X hX j' k' hs
+  · intro X hX k' ws hk; simp only [List.mem_cons] at hX
+    rcases hX with rfl | hX
+    · simp at hk
+    · exact forall_replace (T' := { T with pend := rest }) h.wfPend (fun k ws hk => h.wfPend T hT k ws (hsub _ hk)) X hX k' ws hk
+  · intro m; dsimp only
+    rw [hmsgs, tokCount_cons, tokCount_replace (T' := { T with pend := rest }) hT rfl, List.count_cons, h.tok m]
+    simp only [cycTok, Option.map_some]
+    by_cases e : (⟨T.owner, k⟩ : Msg) = m
+    · simp [e]; omega
+    · have : ¬ (some (⟨T.owner, k⟩ : Msg) = some m) := fun hh => e (Option.some.inj hh)
+      simp [e, this]
+  · intro X hX hs; simp only [List.mem_cons] at hX
+    dsimp only; rw [hpc]
+    rcases hX with rfl | hX
+    · simp at hs
+    · exact forall_replace (T' := { T with pend := rest }) h.stdRun (h.stdRun T hT) X hX hs
+  · intro x hx; dsimp only at hx; rw [hpc] at hx; exact h.todoRun x hx
+  · intro X hX x hx; simp only [List.mem_cons] at hX
+    rcases hX with rfl | hX
+    · simp at hx
+    · exact forall_replace (T' := { T with pend := rest }) h.sRes (h.sRes T hT) X hX x hx
+  · intro X hX x hx; simp only [List.mem_cons] at hX
+    rcases hX with rfl | hX
+    · simp at hx
+    · exact forall_replace (T' := { T with pend := rest }) h.sBuf (h.sBuf T hT) X hX x hx
+  · intro X hX e he x hx; simp only [List.mem_cons] at hX
+    rcases hX with rfl | hX
+    · simp at he
+    · exact forall_replace (T' := { T with pend := rest }) h.sPend (fun e he x hx => h.sPend T hT e (hsub e he) x hx) X hX e he x hx
+  · intro X hX j' k' hs v hv; simp only [List.mem_cons] at hX
+    rcases hX with rfl | hX
+    · simp only [Option.some.injEq, Prod.mk.injEq] at hs
+      obtain ⟨rfl, rfl⟩ := hs
+      exact h.sPend T hT (some k, vs) (by rw [hp]; simp) v hv
+    · exact forall_replace (T' := { T with pend := rest }) h.sRaw (h.sRaw T hT) X hX j' k' hs v hv
+  · intro x hx b hb y hy
+    rcases h.c1 x hx b hb y hy with h1 | h1 | h1
+    · exact Or.inl h1
+    · exact Or.inr (Or.inl (ex_cons (exists_replace_mono (T' := { T with pend := rest }) h1 (fun q => q))))
+    · exact Or.inr (Or.inr h1)
+  · intro j' k' hj hk v' hv'
+    rcases h.c2 j' k' hj hk v' hv' with h1 | h1 | h1
+    · rcases exists_replace (T := T) (T' := { T with pend := rest }) h1 with h2 | ⟨hown, hq⟩
+      · exact Or.inl (ex_cons h2)
+      · rcases hq with hb | ⟨ws, hws, hv⟩
+        · exact Or.inl (ex_cons ⟨_, mem_replace_new, hown, Or.inl hb⟩)
+        · rw [hp] at hws; simp only [List.mem_cons] at hws
+          rcases hws with hws | hws
+          · simp only [Prod.mk.injEq, Option.some.injEq] at hws
+            obtain ⟨rfl, rfl⟩ := hws
+            right; left
+            exact ⟨_, List.mem_cons_self, by rw [hown], hv⟩
+          · exact Or.inl (ex_cons ⟨_, mem_replace_new, hown, Or.inr ⟨ws, hws, hv⟩⟩)
+    · exact Or.inr (Or.inl (ex_cons (exists_replace_mono (T' := { T with pend := rest }) h1 (fun q => q))))
+    · exact Or.inr (Or.inr h1)
+  · intro j' k' x hx v' hv' y hy
+    rcases h.c3 j' k' x hx v' hv' y hy with h1 | h1
+    · exact Or.inl (ex_cons (exists_replace_mono (T' := { T with pend := rest }) h1 (fun q => q)))
+    · exact Or.inr h1
+  · intro j' v' hv'
+    rcases h.c4 j' v' hv' with h1 | h1
+    · left
+      refine ex_cons (exists_replace_mono (T' := { T with pend := rest }) h1 (fun q => ⟨q.1, ?_⟩))
+      rcases q.2 with hb | ⟨ws, hws, hv⟩
+      · exact Or.inl hb
+      · right; rw [hp] at hws; simp only [List.mem_cons] at hws
+        rcases hws with hws | hws
+        · injection hws with e1 _; simp at e1
+        · exact ⟨ws, hws, hv⟩
+    · exact Or.inr h1
+
+/-- removing a task that has nothing left to do -/
+theorem inv_remove {c : Cfg} {s : DSt} (h : DInv c s) (T : Task) (hT : T ∈ s.tasks) (p' : St)
+    (hraw : T.rawIn = []) (hres : T.results = []) (hbuf : T.buf = []) (hpend : T.pend = [])
+    (hpinv : Inv c.topo p') (hpc : p'.pc = s.p.pc)
+    (htok : ∀ m, p'.msgs.count m + (if cycTok T = some m then 1 else 0) = s.p.msgs.count m) :
+    DInv c { s with p := p', tasks := s.tasks.erase T } := by
+  have hsub : ∀ X, X ∈ s.tasks.erase T → X ∈ s.tasks := fun X hX => List.mem_of_mem_erase hX
+  refine { pinv := hpinv, nc := h.nc, wfOwner := fun X hX => h.wfOwner X (hsub X hX),
+           wfSrc := fun X hX => h.wfSrc X (hsub X hX), wfPend := fun X hX => h.wfPend X (hsub X hX), tok := ?_,
+           stdRun := ?_, todoRun := ?_, todoSub := h.todoSub, sOut := h.sOut,
+           sRes := fun X hX => h.sRes X (hsub X hX), sBuf := fun X hX => h.sBuf X (hsub X hX),
+           sPend := fun X hX => h.sPend X (hsub X hX), sRaw := fun X hX => h.sRaw X (hsub X hX),
+           sExt := h.sExt, c1 := ?_, c2 := ?_, c3 := ?_, c4 := ?_ }
+  · intro m
+    have h1 := htok m
+    have h2 := tokCount_erase hT m
+    have h3 := h.tok m
+    dsimp only; omega
+  · intro X hX hs; dsimp only; rw [hpc]; exact h.stdRun X (hsub X hX) hs
+  · intro x hx; dsimp only at hx; rw [hpc] at hx; exact h.todoRun x hx
+  · intro x hx b hb y hy
+    rcases h.c1 x hx b hb y hy with h1 | h1 | h1
+    · exact Or.inl h1
+    · rcases exists_erase (T := T) h1 with h2 | ⟨_, hy'⟩
+      · exact Or.inr (Or.inl h2)
+      · rw [hres] at hy'; simp at hy'
+    · exact Or.inr (Or.inr h1)
+  · intro j' k' hj hk v' hv'
+    rcases h.c2 j' k' hj hk v' hv' with h1 | h1 | h1
+    · rcases exists_erase (T := T) h1 with h2 | ⟨_, hq⟩
+      · exact Or.inl h2
+      · rw [hbuf, hpend] at hq; simp at hq
+    · rcases exists_erase (T := T) h1 with h2 | ⟨_, hq⟩
+      · exact Or.inr (Or.inl h2)
+      · rw [hraw] at hq; simp at hq
+    · exact Or.inr (Or.inr h1)
+  · intro j' k' x hx v' hv' y hy
+    rcases h.c3 j' k' x hx v' hv' y hy with h1 | h1
+    · rcases exists_erase (T := T) h1 with h2 | ⟨_, hy'⟩
+      · exact Or.inl h2
+      · rw [hres] at hy'; simp at hy'
+    · exact Or.inr h1
+  · intro j' v' hv'
+    rcases h.c4 j' v' hv' with h1 | h1
+    · rcases exists_erase (T := T) h1 with h2 | ⟨_, hq⟩
+      · exact Or.inl h2
+      · rw [hbuf, hpend] at hq; simp at hq
+    · exact Or.inr h1
+
+theorem inv_proto {c : Cfg} {s : DSt} (h : DInv c s) (a : Act) (hl : liftable a = true) (p' : St)
+    (hstep : step c.topo s.p a = some p')
+    (hrep : ∀ i, a = .report i → s.stdTodo i = [] ∧ ∀ T, T ∈ s.tasks → T.src = none → T.owner ≠ i) :
+    DInv c { s with p := p' } := by
+  have hm := step_liftable_msgs hl hstep
+  have hr := step_liftable_running hl hstep
+  refine { pinv := step_inv h.pinv a hstep, nc := h.nc, wfOwner := h.wfOwner, wfSrc := h.wfSrc, wfPend := h.wfPend, tok := ?_,
+           stdRun := ?_, todoRun := ?_, todoSub := h.todoSub, sOut := h.sOut, sRes := h.sRes, sBuf := h.sBuf,
+           sPend := h.sPend, sRaw := h.sRaw, sExt := h.sExt, c1 := h.c1, c2 := h.c2, c3 := h.c3, c4 := h.c4 }
+  · intro m; dsimp only; rw [hm]; exact h.tok m
+  · intro T hT hs; dsimp only
+    rcases (hr T.owner).2 (h.stdRun T hT hs) with h1 | h1
+    · exact h1
+    · exact absurd rfl ((hrep _ h1).2 T hT hs)
+  · intro x hx; dsimp only at hx
+    by_cases e : s.p.pc x = .running
+    · rcases (hr x).2 e with h1 | h1
+      · exact absurd h1 hx
+      · exact (hrep _ h1).1
+    · exact h.todoRun x e
+
+/-! ## every action preserves the invariant (as long as the run is not cancelled) -/
+
+theorem inv_taskEnd {c : Cfg} {s s' : DSt} (h : DInv c s) (T : Task) (hT : T ∈ s.tasks)
+    (hraw : T.rawIn = []) (hres : T.results = []) (hbuf : T.buf = []) (hpend : T.pend = [])
+    (hs : (match T.src with
+      | none => some { s with tasks := s.tasks.erase T }
+      | some (j, k) =>
+        match step c.topo s.p (.msgDone j k) with
+        | some p' => some { s with p := p', tasks := s.tasks.erase T }
+        | none => none) = some s') : DInv c s' := by
+  split at hs
+  · rename_i hsrc
+    injection hs with hs; subst hs
+    exact inv_remove h T hT s.p hraw hres hbuf hpend h.pinv rfl (fun m => by simp [cycTok, hsrc])
+  · rename_i j k hsrc
+    split at hs
+    · rename_i p' hstep
+      injection hs with hs; subst hs
+      obtain ⟨hp', hmem⟩ := step_msgDone_eq hstep
+      refine inv_remove h T hT p' hraw hres hbuf hpend (step_inv h.pinv _ hstep) (by rw [hp']; rfl) ?_
+      intro m
+      have hm : p'.msgs = s.p.msgs.erase ⟨j, k⟩ := by rw [hp']; rfl
+      rw [hm]
+      simp only [cycTok, hsrc, Option.map_some]
+      by_cases e : (⟨j, k⟩ : Msg) = m
+      · subst e
+        have := List.count_erase_self (a := (⟨j, k⟩ : Msg)) (l := s.p.msgs)
+        have hpos : 0 < s.p.msgs.count ⟨j, k⟩ := List.count_pos_iff.mpr hmem
+        simp; omega
+      · have : ¬ (some (⟨j, k⟩ : Msg) = some m) := fun hh => e (Option.some.inj hh)
+        simp only [this, if_false, Nat.add_zero]
+        exact List.count_erase_of_ne (Ne.symm e)
+    · simp at hs
+
+theorem dstep_inv {c : Cfg} {s s' : DSt} (hc : c.closedTopo) (h : DInv c s) (a : DAct) (hs : dstep c s a = some s')
+    (hnc : s'.cancelled = false) : DInv c s' := by
+  cases a with
+  | stdRecv i =>
+    simp only [dstep] at hs
+    split at hs
+    · rename_i b rest htodo
+      split at hs
+      · rename_i hg; injection hs with hs; subst hs
+        exact inv_stdRecv h i b rest htodo hg.1 hg.2.1
+      · simp at hs
+    · simp at hs
+  | dedupIn T =>
+    simp only [dstep] at hs
+    split at hs
+    · rename_i hT
+      split at hs
+      · rename_i j k v rest hsrc hraw
+        split at hs
+        · rename_i hseen; injection hs with hs; subst hs
+          exact inv_dedup_seen h T hT j k v rest hsrc hraw hseen
+        · injection hs with hs; subst hs
+          exact inv_dedup_new h T hT j k v rest hsrc hraw
+      · simp at hs
+    · simp at hs
+  | claim T =>
+    simp only [dstep] at hs
+    split at hs
+    · rename_i hT
+      split at hs
+      · rename_i r rest hres
+        split at hs
+        · rename_i hdup; injection hs with hs; subst hs
+          exact inv_claim_dup h T hT r rest hres hdup
+        · injection hs with hs; subst hs
+          exact inv_claim_new h T hT r rest hres
+      · simp at hs
+    · simp at hs
+  | flush T =>
+    simp only [dstep] at hs
+    split at hs
+    · rename_i hg; injection hs with hs; subst hs
+      exact inv_flush h T hg.1 hg.2.2
+    · simp at hs
+  | sendExt T =>
+    simp only [dstep] at hs
+    split at hs
+    · rename_i hT
+      split at hs
+      · rename_i vs rest hp; injection hs with hs; subst hs
+        exact inv_sendExt h T hT vs rest hp
+      · simp at hs
+    · simp at hs
+  | sendCyc T =>
+    simp only [dstep] at hs
+    split at hs
+    · rename_i hT
+      split at hs
+      · rename_i k vs rest hp
+        split at hs
+        · -- a dropped send would need a cancelled run or a closed listener: impossible while a task exists
+          rename_i hdrop
+          exfalso
+          rcases hdrop with hcn | hcl
+          · rw [h.nc] at hcn; simp at hcn
+          · have h0 := zero_of_teardown h T.owner (h.wfOwner T hT) (Or.inr (Or.inl (by omega)))
+            have := no_tasks_of_zero h h0
+            rw [this] at hT; simp at hT
+        · split at hs
+          · rename_i p' d hstep hd
+            injection hs with hs; subst hs
+            exact inv_sendCyc h hc T hT k vs rest hp p' d hstep hd
+          · simp at hs
+      · simp at hs
+    · simp at hs
+  | taskDone T =>
+    simp only [dstep] at hs
+    split at hs
+    · rename_i hg
+      exact inv_taskEnd h T hg.1 hg.2.1 hg.2.2.1 hg.2.2.2.1 hg.2.2.2.2 hs
+    · simp at hs
+  | proto a =>
+    simp only [dstep] at hs
+    split at hs
+    · rename_i hl
+      split at hs
+      · rename_i p' hstep
+        split at hs
+        · rename_i i
+          split at hs
+          · rename_i hg; injection hs with hs; subst hs
+            refine inv_proto h _ hl p' hstep ?_
+            intro i' hi'
+            injection hi' with hi'; subst hi'
+            refine ⟨hg.1, fun T hT hsrc ho => ?_⟩
+            have := List.all_eq_true.mp hg.2 T hT
+            simp [ho, hsrc] at this
+          · simp at hs
+        · rename_i hnr
+          injection hs with hs; subst hs
+          exact inv_proto h _ hl p' hstep (fun i hi => absurd hi (hnr i))
+      · simp at hs
+    · simp at hs
+  | cancel =>
+    simp only [dstep] at hs; injection hs with hs; subst hs; simp at hnc
+  | abort T =>
+    simp only [dstep] at hs
+    split at hs
+    · rename_i hg; rw [h.nc] at hg; simp at hg
+    · simp at hs
+  | stdDrop i =>
+    simp only [dstep] at hs
+    split at hs
+    · rename_i hg; rw [h.nc] at hg; simp at hg
+    · simp at hs
+
 end OpenFGAVerif.Proofs.CycleData
